@@ -29,9 +29,26 @@ try:
         rec["checks"][p] = {"exit": c.returncode, "violations": len(viol),
                             "with_failing_input": sum(1 for l in viol if "no-failing-input-found" not in l),
                             "first": viol[0] if viol else None}
+        # the replay file must reproduce the violation on the patched tree ...
+        first = next((l for l in viol if "no-failing-input-found" not in l), None)
+        if first:
+            rp = first.split("replay=")[1].split()[0]
+            keep = os.path.join("/tmp", "seedreplay_" + os.path.basename(rp))
+            shutil.copy(os.path.join("/verif", rp), keep)
+            rr = run(["/venv/bin/python", "harness/check.py", "--prop", p, "--tier", "quick", "--replay", keep], cwd="/verif", timeout=1800)
+            rec["checks"][p]["replay_on_patched_exit"] = rr.returncode
+            rec["checks"][p]["_replay_file"] = keep
 finally:
     run(["git", "-C", "/repo", "checkout", "--", "."])
     shutil.rmtree("/verif/evidence/replay", ignore_errors=True)
+# ... and pass on the unchanged tree
+for p, info in rec["checks"].items():
+    keep = info.pop("_replay_file", None)
+    if keep:
+        rr = run(["/venv/bin/python", "harness/check.py", "--prop", p, "--tier", "quick", "--replay", keep], cwd="/verif", timeout=1800)
+        info["replay_on_clean_exit"] = rr.returncode
+        os.remove(keep)
+shutil.rmtree("/verif/evidence/replay", ignore_errors=True)
 meta = json.load(open(os.path.join(dst, "meta.json")))
 meta["what_was_run"] = rec
 meta["confirmed"] = bool(rec["demo_clean"] == 0 and rec["demo_patched"] not in (0, None) and rec["suite_patched"] and "failed" not in rec["suite_patched"][0])
